@@ -20,7 +20,12 @@ SHRINK_BUDGET = 150
 RULE = ("cases: (a) byte strings as .json/.yaml/.yml files, (b) arbitrary JSON values as the whole document, "
         "(c) valid generated documents with 1-4 junk mutations (replace/delete/duplicate a node at any depth; junk = "
         "wrong types, null, empty, dangling/remote/self/wrong-section/non-string $ref, contradictory keyword sets, "
-        "non-finite numbers), (d) deliberately cyclic documents. Non-trivial = input parsed to a mapping holding "
+        "non-finite numbers), (d) deliberately cyclic documents, (e) 327 documents in which two constructs of every pair of kinds "
+        "(component object/enum/array/allOf child/union/alias, inline property, inline parameter enum, inline response, inline body, "
+        "two operations sharing an operationId) derive the same class name, in both orders, (f) a complete sweep of 32 stress "
+        "strings (long repetitive runs with missing terminators: unclosed braces, slashes, dots, underscores, case alternations, "
+        "pointer escapes, media-type parameters, 4000 characters) x every string leaf and every name-carrying key (81 slots) of a "
+        "carrier document - what makes a backtracking pattern or a character loop run away. Non-trivial = input parsed to a mapping holding "
         "openapi+info+paths and either produced >=1 diagnostic or reached rendering; distinct = hash of the input.")
 ASSUMPTIONS = [
     "post-hooks are disabled, so an ERROR-level diagnostic always means the document itself was rejected",
@@ -208,6 +213,135 @@ def cyclic_docs():
     return cases
 
 
+# ------------------------------------------------------------------------------------------------ stress strings
+# long, repetitive strings with missing terminators: what makes a backtracking pattern or a character loop run away
+STRESS = [
+    "{" + "a" * 48, "a" * 48 + "}", "/{" + "a_" * 24, "{" + "a-" * 24 + "+}", "{" + "a" * 40 + ":x}", "{" * 48, "}" * 48, "{a}" * 24,
+    "/" * 64, "a/" * 32, "_" * 64, "-" * 64, " " * 64 + "x", "a." * 32, "A" * 64, "aB" * 32, "9" * 64, "#/" * 32,
+    "#/components/schemas/" + "a/" * 32, "~1" * 32, "%41" * 24, "application/" + "a+" * 32 + "json", "a;" * 32,
+    "a/b;" + "c=d;" * 24, "\\" * 48, "$" * 48, "\u00e9" * 48, "\u00df" * 40, "\u0130" * 40, "a b " * 24, "1.2." * 24, "x" * 4000,
+]
+KEY_SLOT_PARENTS = ("paths", "schemas", "properties", "content", "responses", "parameters", "requestBodies", "securitySchemes")
+
+
+def stress_carrier():
+    R = "#/components/schemas/"
+    return {"openapi": "3.0.3", "info": {"title": "Stress API", "version": "1.0", "description": "d"},
+            "servers": [{"url": "https://example.invalid/v1"}],
+            "paths": {"/pets/{petId}/toys": {
+                "parameters": [{"name": "petId", "in": "path", "required": True, "schema": {"type": "string"}}],
+                "get": {"operationId": "listToys", "tags": ["toys"], "summary": "s", "description": "d",
+                        "parameters": [{"name": "kind", "in": "query", "schema": {"type": "string", "enum": ["soft", "hard"], "default": "soft"}},
+                                       {"name": "X-Trace", "in": "header", "schema": {"type": "string", "pattern": "^a+$"}},
+                                       {"$ref": "#/components/parameters/Limit"}],
+                        "responses": {"200": {"description": "ok", "content": {"application/json": {"schema": {"type": "array", "items": {"$ref": R + "Toy"}}}}},
+                                      "404": {"$ref": "#/components/responses/Missing"}}},
+                "post": {"operationId": "addToy", "tags": ["toys"],
+                         "requestBody": {"content": {"application/json": {"schema": {"$ref": R + "Toy"}},
+                                                     "multipart/form-data": {"schema": {"type": "object", "properties": {"file": {"type": "string", "format": "binary"}}}}}},
+                         "responses": {"201": {"description": "made", "content": {"text/plain": {"schema": {"type": "string"}}}}},
+                         "security": [{"key": []}]}}},
+            "components": {"schemas": {"Toy": {"type": "object", "title": "Toy", "description": "a toy", "required": ["name"],
+                                               "properties": {"name": {"type": "string", "default": "bear", "example": "bear"},
+                                                              "made": {"type": "string", "format": "date-time"},
+                                                              "size": {"$ref": R + "Size"},
+                                                              "owner": {"allOf": [{"$ref": R + "Owner"}]}}},
+                                       "Size": {"type": "string", "enum": ["s", "m"]},
+                                       "Owner": {"type": "object", "properties": {"nick": {"type": "string"}}, "additionalProperties": {"type": "string"}}},
+                           "parameters": {"Limit": {"name": "limit", "in": "query", "schema": {"type": "integer", "default": 10}}},
+                           "responses": {"Missing": {"description": "none", "content": {"application/json": {"schema": {"$ref": R + "Owner"}}}}},
+                           "securitySchemes": {"key": {"type": "apiKey", "in": "header", "name": "X-Key"}}}}
+
+
+def stress_slots(doc):
+    """Every string leaf and every key of the name-carrying mappings, as (path, is_key)."""
+    out = []
+    for path in walk(doc):
+        if not path:
+            continue
+        v = _get(doc, path)
+        if isinstance(v, str):
+            out.append((list(path), False))
+        if len(path) >= 2 and path[-2] in KEY_SLOT_PARENTS and isinstance(path[-1], str):
+            out.append((list(path), True))
+    return out
+
+
+def stress_cases():
+    carrier = stress_carrier()
+    slots = stress_slots(carrier)
+    return [{"kind": "stress", "slot": i, "string": j} for i in range(len(slots)) for j in range(len(STRESS))]
+
+
+def _stress_doc(case):
+    doc = stress_carrier()
+    path, is_key = stress_slots(doc)[case["slot"]]
+    text = STRESS[case["string"]]
+    parent = _get(doc, path[:-1])
+    if is_key:
+        parent[text] = parent.pop(path[-1])
+    else:
+        parent[path[-1]] = text
+    return doc
+
+
+# ------------------------------------------------------------------------------------------------ class-name collisions
+def collision_docs():
+    """Two constructs of every pair of kinds whose derived class names coincide, in both document orders."""
+    R = "#/components/schemas/"
+    obj = lambda: {"type": "object", "properties": {"a": {"type": "string"}}}  # noqa: E731
+    comp_kinds = {
+        "object": obj, "str_enum": lambda: {"type": "string", "enum": ["a", "b"]}, "int_enum": lambda: {"type": "integer", "enum": [1, 2]},
+        "array_inline_object": lambda: {"type": "array", "items": obj()},
+        "allof_child": lambda: {"allOf": [{"$ref": R + "Base"}, {"type": "object", "properties": {"c": {"type": "string"}}}]},
+        "union_inline_objects": lambda: {"oneOf": [obj(), {"type": "object", "properties": {"b": {"type": "integer"}}}]},
+        "string_alias": lambda: {"type": "string"},
+    }
+    inline_kinds = {
+        "object": obj, "str_enum": lambda: {"type": "string", "enum": ["x", "y"]}, "int_enum": lambda: {"type": "integer", "enum": [7, 8]},
+        "array_enum": lambda: {"type": "array", "items": {"type": "string", "enum": ["x", "y"]}},
+        "union_inline_objects": lambda: {"oneOf": [obj(), {"type": "object", "properties": {"b": {"type": "integer"}}}]},
+    }
+    base = {"Base": obj()}
+    ok = {"200": {"description": "ok"}}
+    out = []
+
+    def doc(schemas, paths=None):
+        return {"openapi": "3.0.3", "info": {"title": "t", "version": "1"}, "paths": paths or {}, "components": {"schemas": schemas}}
+
+    def both_orders(a: dict, b: dict, paths=None, tag=""):
+        out.append((tag + ":ab", doc({**base, **a, **b}, paths)))
+        out.append((tag + ":ba", doc({**base, **b, **a}, paths)))
+
+    for k1, f1 in comp_kinds.items():
+        for k2, f2 in comp_kinds.items():
+            both_orders({"PetStatus": f1()}, {"pet_status": f2()}, tag=f"comp/{k1}+comp/{k2}")
+        for k2, f2 in inline_kinds.items():
+            for spelled in ("PetStatus", "pet_status"):
+                both_orders({spelled: f1()}, {"Pet": {"type": "object", "properties": {"status": f2()}}}, tag=f"comp/{k1}+inlineprop/{k2}")
+        for k2 in ("str_enum", "int_enum"):
+            p = {"/pets": {"get": {"operationId": "pet", "parameters": [{"name": "status", "in": "query", "schema": inline_kinds[k2]()}], "responses": ok}}}
+            for spelled in ("PetStatus", "pet_status"):
+                out.append((f"comp/{k1}+param/{k2}", doc({**base, spelled: f1()}, p)))
+        for k2 in ("object", "str_enum", "array_enum", "union_inline_objects"):
+            p = {"/pets": {"get": {"operationId": "pet", "responses": {"200": {"description": "ok", "content": {"application/json": {"schema": inline_kinds[k2]()}}}}}}}
+            out.append((f"comp/{k1}+response/{k2}", doc({**base, "PetResponse200": f1()}, p)))
+        for k2 in ("object", "str_enum"):
+            p = {"/pets": {"post": {"operationId": "pet", "requestBody": {"content": {"application/json": {"schema": inline_kinds[k2]()}}}, "responses": ok}}}
+            out.append((f"comp/{k1}+body/{k2}", doc({**base, "PetBody": f1(), "PetJsonBody": f1()}, p)))
+    for k1, f1 in inline_kinds.items():
+        for k2 in ("str_enum", "int_enum"):
+            p = {"/pets": {"get": {"operationId": "pet", "parameters": [{"name": "status", "in": "query", "schema": inline_kinds[k2]()}], "responses": ok}}}
+            out.append((f"inlineprop/{k1}+param/{k2}", doc({**base, "Pet": {"type": "object", "properties": {"status": f1()}}}, p)))
+    # two operations sharing an operationId, each with an inline response of some kind
+    for k1 in ("object", "str_enum", "union_inline_objects"):
+        for k2 in ("object", "str_enum", "union_inline_objects"):
+            r = lambda k: {"200": {"description": "ok", "content": {"application/json": {"schema": inline_kinds[k]()}}}}  # noqa: E731
+            p = {"/a": {"get": {"operationId": "pet", "responses": r(k1)}}, "/b": {"get": {"operationId": "pet", "responses": r(k2)}}}
+            out.append((f"response/{k1}+response/{k2}", doc(dict(base), p)))
+    return [{"kind": "doc", "doc": d, "yaml": False, "cli": False, "fow": False, "meta": "none", "collision": tag} for tag, d in out]
+
+
 ATHERIS_RUNS = int(os.environ.get("VERIF_C06_ATHERIS_RUNS", "40000"))
 
 
@@ -216,7 +350,7 @@ def case_timeout(case):
 
 
 def sweep(tier):
-    cases = cyclic_docs()
+    cases = cyclic_docs() + collision_docs() + stress_cases()
     if tier == "thorough":
         # coverage-guided campaigns (atheris/libFuzzer on the loader + parser): 8 from an empty corpus, 8 from a seeded one
         for k in range(16):
@@ -303,6 +437,11 @@ def _source(case) -> tuple[str, object]:
 def run(case, ctx):
     if case.get("kind") == "atheris":
         return _run_atheris(case, ctx)
+    if case.get("kind") == "stress":
+        ctx.label("stress_string")
+        case = {"kind": "doc", "doc": _stress_doc(case), "yaml": False, "cli": False, "fow": False, "meta": "none", "stress": [case["slot"], case["string"]]}
+    if case.get("collision"):
+        ctx.label("class_name_collision")
     src, doc = _source(case)
     meta = case.get("meta", "none")
     res = sut.generate(source=src, meta=meta, via_project=False)
